@@ -48,7 +48,7 @@ pub(crate) struct Lim {
 }
 
 pub(crate) trait RDom: Dom {
-    /// bits of the mantissa (for offsets of a few ulps)
+    /// bits of the mantissa (for offsets down to a few ulps of the width)
     const MANT: i32;
     fn lim() -> Lim;
     /// A value in [1, 2): a short dyadic in the exact domain, a random mantissa for floats.
@@ -58,31 +58,31 @@ pub(crate) trait RDom: Dom {
 }
 
 impl RDom for Rat {
-    const MANT: i32 = 52;
+    // No mantissa: offsets down to 2^-42 of the width. Deliberately above `Rat::epsilon()` = 2^-52 (an artefact of
+    // the harness scalar): a guard relative to the volume's own size below machine epsilon is harmless in every
+    // float type and is not to be reported through the exact domain; absolute guards are reached by the 2^k scaling.
+    const MANT: i32 = 40;
     fn lim() -> Lim {
         Lim { k_lin: 56, k_sq: 20, cond: 20, ratio: 20, fov: 12, aspect: 12 }
     }
     fn mant(t: &mut Tape) -> Rat {
         Rat::frac(t.int(16, 31), 16)
     }
-    fn fov(t: &mut Tape, cx: &mut Cx) -> Rat {
+    fn fov(t: &mut Tape, _cx: &mut Cx) -> Rat {
         // u = tan(fov/4); sin, cos, tan of fov and fov/2 are then rational and registered
         let l = Self::lim();
         match t.below(8) {
             0 | 1 => {
-                cx.label("fov ordinary");
                 let d = t.int(2, 8);
                 let n = t.int(1, d - 1);
                 rat::register_angle_quarter_tan(Rat::frac(n, d))
             }
             2 | 3 | 4 => {
                 let e = t.int(1, l.fov as i64);
-                cx.label(if e <= 6 { "fov 2^-3..2^-8 rad" } else { "fov 2^-9..2^-24 rad" });
                 rat::register_angle_quarter_tan(Rat::frac(1, t.int(4, 7) << e))
             }
             _ => {
                 let e = t.int(1, 10);
-                cx.label("fov next to pi");
                 let d = t.int(4, 7) << e;
                 rat::register_angle_quarter_tan(Rat::frac(d - 1, d))
             }
@@ -105,25 +105,16 @@ macro_rules! rdom_float {
                 let pi = std::f64::consts::PI;
                 match t.below(8) {
                     0 | 1 => {
-                        cx.label("fov ordinary");
-                        t.range_f64(0.05, pi - 0.05) as $F
+                                t.range_f64(0.05, pi - 0.05) as $F
                     }
                     2 | 3 | 4 => {
                         let e = t.int(3, l.fov as i64) as i32;
-                        cx.label(if e <= 8 {
-                            "fov 2^-3..2^-8 rad"
-                        } else if e <= 24 {
-                            "fov 2^-9..2^-24 rad"
-                        } else {
-                            "fov < 2^-24 rad"
-                        });
                         ((1.0 + t.unit_f64()) * (2.0f64).powi(-e)) as $F
                     }
                     5 | 6 => {
                         // pi - delta, delta >= 2^-(cond-1): fov/sin(fov) <= 2^(cond+1)
                         let j = t.int(1, (l.cond - 1) as i64) as i32;
-                        cx.label("fov next to pi");
-                        (pi - (1.0 + t.unit_f64()) * (2.0f64).powi(-j)) as $F
+                                (pi - (1.0 + t.unit_f64()) * (2.0f64).powi(-j)) as $F
                     }
                     _ => {
                         cx.label("fov round degrees");
@@ -516,6 +507,13 @@ pub(crate) fn persp<S: RDom, L: Lay<S>>(t: &mut Tape, cx: &mut Cx) -> CaseResult
     let lim = S::lim();
     let (one, two, zero) = (S::one(), S::i(2), S::zero());
     let fov = S::fov(t, cx);
+    cx.label(match fov.f() {
+        x if x < (2.0f64).powi(-24) => "fov < 2^-24 rad",
+        x if x < (2.0f64).powi(-8) => "fov 2^-24..2^-8 rad",
+        x if x < 0.125 => "fov 2^-8..2^-3 rad (0.2..7 degrees)",
+        x if x > std::f64::consts::PI - 0.125 => "fov within 2^-3 rad of pi",
+        _ => "fov ordinary",
+    });
     let aspect = gen_aspect::<S>(t, cx);
     let (n, f) = gen_depth::<S>(t, cx, false);
     // unit of length of near / far (x, y are implied by the field of view)
